@@ -60,6 +60,7 @@ type Result struct {
 	SpillFiles  int                 `json:"spill_cases"`
 	StallForced int                 `json:"stall_forced"` // part (e): a server goroutine really was stuck in its socket write while the frames arrived
 	Repetitions int                 `json:"repetitions"`
+	SeqRequests int                 `json:"seq_requests"` // part (f): requests sent inside sequences
 	Findings    map[string]*Finding `json:"findings"`
 	Samples     []any               `json:"samples"`
 	Incomplete  []string            `json:"incomplete"`
@@ -312,6 +313,32 @@ func runWorker(shard, of int, tier string) {
 			}
 		})
 	})
+	part("f", func() {
+		enumSeq(tier, func(sc *SeqCase) {
+			k := sc.key()
+			if w.isExpired() || int(fnv64(k)%uint64(of)) != shard {
+				return
+			}
+			w.res.Seq++
+			obs, fails := w.rig.runSeq(sc)
+			w.res.Evals["f:"+sc.Server+"/"+sc.Pattern]++
+			w.res.SeqRequests += len(sc.Steps)
+			w.res.Nontrivial++
+			for _, st := range sc.Steps {
+				w.res.ExpKinds[st.Exp.Kind]++
+			}
+			for _, f := range fails {
+				w.finding("seq("+sc.Server+"):"+f.Class+":"+f.Kind, f.What, fmt.Sprintf("f|%06d|%s", len(k), k), map[string]any{"kind": "seq", "case": sc, "observed": obs})
+			}
+			if len(w.res.Samples) < 40 && w.res.Seq%997 == 1 {
+				var steps []string
+				for _, st := range sc.Steps {
+					steps = append(steps, st.Transport+" "+st.Class.Name+" -> "+st.Exp.Kind)
+				}
+				w.res.Samples = append(w.res.Samples, map[string]any{"part": "f", "server": sc.Server, "pattern": sc.Pattern, "steps": steps})
+			}
+		})
+	})
 	part("b", func() { enumB(tier, w.httpCase) })
 	out, _ := json.Marshal(w.res)
 	os.Stdout.Write(out)
@@ -364,6 +391,20 @@ func replay(path string) {
 		fmt.Printf("observed: %s\n", ob)
 		for _, f := range judgeWS(&c, &o) {
 			fmt.Printf("ORACLE: %s:%s: %s\n", f.Class, f.Kind, f.What)
+		}
+	case "seq":
+		var sc SeqCase
+		if err := json.Unmarshal(doc.Replay.Case, &sc); err != nil {
+			common.Broken("bad case: %v", err)
+		}
+		obs, fails := r.runSeq(&sc)
+		for i, st := range sc.Steps {
+			fmt.Printf("step %d: %s %s body=%s expect=%s\n", i+1, st.Transport, st.Class.Name, clip(st.Class.jsonBody(), 200), st.Exp.Kind)
+		}
+		ob, _ := json.MarshalIndent(obs, "", " ")
+		fmt.Printf("server: %s pattern: %s\nobserved: %s\n", sc.Server, sc.Pattern, ob)
+		for _, f := range fails {
+			fmt.Printf("ORACLE: seq(%s):%s:%s: %s\n", sc.Server, f.Class, f.Kind, f.What)
 		}
 	default:
 		fmt.Println("nothing to re-run for this kind of finding")
@@ -439,7 +480,7 @@ func main() {
 	expKinds := map[string]int{}
 	outcomes := map[string]int{}
 	findings := map[string]*Finding{}
-	var total, nontrivial, dup, unreachable, lenient, wsExec, wsPruned, wsFrames, upOK, spill, stallForced, reps int
+	var total, nontrivial, dup, unreachable, lenient, wsExec, wsPruned, wsFrames, upOK, spill, stallForced, reps, seqReqs int
 	incomplete := map[string]bool{}
 	var samples []any
 	for _, r := range results {
@@ -464,6 +505,7 @@ func main() {
 		spill += r.SpillFiles
 		stallForced += r.StallForced
 		reps += r.Repetitions
+		seqReqs += r.SeqRequests
 		for _, s := range r.Incomplete {
 			incomplete[s] = true
 		}
@@ -556,6 +598,7 @@ func main() {
 	c.Cov["spill_file_cases"] = spill
 	c.Cov["ws_active_operation_cases_with_writer_stalled_in_socket_write"] = stallForced
 	c.Cov["ws_burst_repetitions_not_counted_as_distinct"] = reps
+	c.Cov["sequence_requests_sent"] = seqReqs
 	c.Assume = []string{
 		"JSON inputs follow encoding/json stream semantics: only the first complete JSON value of a body/parameter is the input; trailing bytes are counted (lenient_trailing_data_inputs) but not required to be rejected",
 		"a body over MaxUploadSize must be refused with a well-formed error and no resolver call; the statement defines no status for it (gqlgen's own test pins 200), so none is asserted there; every other malformed HTTP input must get 4xx (or an in-stream error once an event stream has started)",
